@@ -19,7 +19,9 @@ import (
 	"time"
 
 	badger "github.com/dgraph-io/badger/v4"
+	"github.com/dgraph-io/badger/v4/pb"
 	"github.com/dgraph-io/badger/v4/y"
+	"google.golang.org/protobuf/proto"
 	"pgregory.net/rapid"
 
 	"verifharness/internal/core"
@@ -44,6 +46,7 @@ type histProg struct {
 	Scans   int      `json:"scans"`
 	Jitter  []byte   `json:"jitter"`
 	Compact bool     `json:"compactors"`
+	Preload bool     `json:"preload,omitempty"` // DB.Load of a small backup right before the workload starts
 }
 
 func genHist(t *rapid.T) histProg {
@@ -84,6 +87,7 @@ func genHist(t *rapid.T) histProg {
 	p.Readers = rapid.IntRange(1, 4).Draw(t, "readers")
 	p.Scans = rapid.IntRange(1, 12).Draw(t, "scans")
 	p.Jitter = rapid.SliceOfN(rapid.Byte(), 8, 64).Draw(t, "jitter")
+	p.Preload = rapid.Bool().Draw(t, "preload")
 	return p
 }
 
@@ -175,6 +179,23 @@ func runHist(p histProg, rec *evid.Rec) (core.Result, error) {
 			db.Close()
 		}
 	}()
+	if p.Preload {
+		// a restore right before the workload: the first commits after DB.Load race with the readers
+		list := &pb.KVList{}
+		for i := 0; i < 5; i++ {
+			list.Kv = append(list.Kv, &pb.KV{Key: []byte(fmt.Sprintf("p%02d", i)), Value: []byte("preloaded"), Version: uint64(3 + i%2), UserMeta: []byte{0}, Meta: []byte{0}})
+		}
+		raw, err := proto.Marshal(list)
+		if err != nil {
+			return res, err
+		}
+		var buf bytes.Buffer
+		binary.Write(&buf, binary.LittleEndian, uint64(len(raw)))
+		buf.Write(raw)
+		if err := db.Load(&buf, 4); err != nil {
+			return res, fmt.Errorf("Load: %v", err)
+		}
+	}
 	installJitter(p.Jitter)
 	var stamp atomic.Int64
 	var mu sync.Mutex
@@ -347,6 +368,9 @@ func runHist(p histProg, rec *evid.Rec) (core.Result, error) {
 	for it.Rewind(); it.Valid(); it.Next() {
 		item := it.Item()
 		var k int
+		if bytes.HasPrefix(item.Key(), []byte("p")) {
+			continue // preloaded by DB.Load
+		}
 		if _, err := fmt.Sscanf(string(item.Key()), "k%02d", &k); err != nil {
 			it.Close()
 			rd.Discard()
@@ -499,6 +523,7 @@ func runHist(p histProg, rec *evid.Rec) (core.Result, error) {
 	cls(conflicts > 0, "conflict")
 	cls(rejected > 0, "rejected_too_big")
 	cls(p.Compact, "background_compactors")
+	cls(p.Preload, "workload_right_after_load")
 	cls(commits >= 20, "commits>=20")
 	_ = math.MaxInt
 	cls(tables > 0, "memtable_flushed_during_run")
@@ -507,7 +532,7 @@ func runHist(p histProg, rec *evid.Rec) (core.Result, error) {
 	return res, nil
 }
 
-const histRule = "rapid-generated concurrent workloads: 2-6 writer goroutines each run a generated list of read-write transactions (0-3 Gets, 1-4 Sets over 2-12 shared keys, values around the threshold, Commit or CommitWith; 1 in 30 overflows the transaction size limit) while 1-4 reader goroutines take snapshots (full iteration or Get of every key); memtable sizes 8K-64K with 1-5 memtables make commits span rotation and flush, the production flusher and (3 of 4 cases) two compactors run; generated jitter bytes insert yields/sleeps at the commit-ts, write-channel, doneCommit, readTs-wait, rotation and flush hook points. Every call gets logical invocation/return stamps. Oracle over the recorded history and the final all-versions scan (NumVersionsToKeep unbounded, no deletes, so nothing is ever dropped): each acknowledged transaction is stored under exactly one timestamp with all its writes; timestamps are distinct; a commit issued after another returned has a larger timestamp; a rejected commit (conflict, too big) stores nothing; EVERY Get/iteration result of every transaction equals the newest version at or below its read timestamp (no partial transaction, no commit at or below the read timestamp still being applied); a transaction created after a Commit returned has a read timestamp at or above it. Non-trivial = >=4 commits from >=2 writers and >=8 checked reads."
+const histRule = "rapid-generated concurrent workloads (half of them started right after a DB.Load of a small backup): 2-6 writer goroutines each run a generated list of read-write transactions (0-3 Gets, 1-4 Sets over 2-12 shared keys, values around the threshold, Commit or CommitWith; 1 in 30 overflows the transaction size limit) while 1-4 reader goroutines take snapshots (full iteration or Get of every key); memtable sizes 8K-64K with 1-5 memtables make commits span rotation and flush, the production flusher and (3 of 4 cases) two compactors run; generated jitter bytes insert yields/sleeps at the commit-ts, write-channel, doneCommit, readTs-wait, rotation and flush hook points. Every call gets logical invocation/return stamps. Oracle over the recorded history and the final all-versions scan (NumVersionsToKeep unbounded, no deletes, so nothing is ever dropped): each acknowledged transaction is stored under exactly one timestamp with all its writes; timestamps are distinct; a commit issued after another returned has a larger timestamp; a rejected commit (conflict, too big) stores nothing; EVERY Get/iteration result of every transaction equals the newest version at or below its read timestamp (no partial transaction, no commit at or below the read timestamp still being applied); a transaction created after a Commit returned has a read timestamp at or above it. Non-trivial = >=4 commits from >=2 writers and >=8 checked reads."
 
 func TestC03_ConcurrentHistory(t *testing.T) {
 	core.Run(t, "C03", "history", histRule, genHist, runHist)
